@@ -166,6 +166,36 @@ func c06Generate(seed uint64, tier string, index int) json.RawMessage {
 			prog = append(prog, c06Op{Kind: "put", Side: d % 2, Doc: d})
 		}
 		p.Tasks = [][]c06Op{prog}
+	case 13:
+		// directed: the storage operations on the replication's own checkpoint documents fail now and then (reading them
+		// when a connection starts, writing them on a tick or when a connection ends) while connections come and go;
+		// checkpoints are taken often, so that both copies hold positions worth losing
+		p.Faulty, p.FaultOn, p.Continuous, p.CheckpointMs = true, "active-checkpoint-docs", true, []int{20, 200}[r.Intn(2)]
+		p.Cfg.MaxFaults, p.Cfg.FaultPermille = r.Range(1, 3), map[string]int{simstore.AltErr: []int{150, 400}[r.Intn(2)]}
+		var prog []c06Op
+		for i := 0; i < r.Range(6, 10); i++ {
+			d := r.Intn(4)
+			switch x := r.Intn(10); {
+			case x < 5:
+				prog = append(prog, c06Op{Kind: "put", Side: d % 2, Doc: d})
+			case x < 7:
+				prog = append(prog, c06Op{Kind: "sever"})
+			case x < 8:
+				prog = append(prog, c06Op{Kind: "repl-stop"}, c06Op{Kind: "idle", Ms: 300}, c06Op{Kind: "repl-start"})
+			default:
+				prog = append(prog, c06Op{Kind: "idle", Ms: []int{50, 600, 3000}[r.Intn(3)]})
+			}
+		}
+		p.Tasks = [][]c06Op{prog}
+		if p.Direction == "push" || p.Direction == "pull" {
+			side := 0
+			if p.Direction == "pull" {
+				side = 1
+			}
+			for i := range p.Tasks[0] {
+				p.Tasks[0][i].Side = side
+			}
+		}
 	case 3:
 		// directed: a write on the sending side stays in flight (its sequence is allocated, the document is not stored
 		// yet) while later documents are sent, checkpointed and the replication is stopped; then the write lands
@@ -308,6 +338,9 @@ func c06Body(env *verifsim.Env, p c06Plan, mon *c17Mon) *verifsim.Violation {
 	case "active-doc-writes":
 		passive.node.NoFaultKeys = func(string) bool { return true }
 		active.node.NoFaultKeys = func(key string) bool { return simstore.KeyClass(key) != "doc" }
+	case "active-checkpoint-docs":
+		passive.node.NoFaultKeys = func(string) bool { return true }
+		active.node.NoFaultKeys = func(key string) bool { return !strings.Contains(key, "checkpoint/sgr2cp:") }
 	}
 	docID := func(i int) string { return fmt.Sprintf("doc%d", i) }
 	var setupErr, replCfg string
